@@ -26,7 +26,7 @@
 (*   Recover: per hash the highest sequence over durable entries and       *)
 (*            logged tombstones; sequence restarts above everything        *)
 (***************************************************************************)
-EXTENDS Naturals, Sequences, FiniteSets, TLC
+EXTENDS Integers, Sequences, FiniteSets, TLC
 
 CONSTANTS
     Keys, Hash,         \* Hash : [Keys -> Nat], possibly non-injective (the disk index is by hash)
@@ -59,11 +59,16 @@ S0 == [ mem    |-> <<>>,                       \* Seq([k, v, loc, age]) FIFO ord
         hold   |-> FALSE,                      \* flush switch
         gate   |-> FALSE,                      \* device writes held
         active |-> TRUE,
+        stuck  |-> FALSE,                      \* close() was called with device writes held: it cannot return (terminal)
         truth  |-> [k \in Keys |-> 0],
         loc    |-> [k \in Keys |-> "none"],    \* placement advice of the version that is truth[k]
         nv     |-> 0,
         vkey   |-> <<>>,                       \* key of version i
         heldph |-> <<>>,                       \* disk-only (phantom) records whose handle the caller still holds: <<k, v>>
+        wsince |-> {},                         \* entries made durable since this process opened the store (they sit in the
+                                               \* flusher's current, unsealed blob: small runs never fill a blob index)
+        ghost  |-> {},                         \* entries wiped by clear() that the next non-empty batch lists again (finding F13)
+        revived |-> {},                        \* keys of such entries: outside the invariants until their next insert
         late   |-> {},                         \* keys republished by the late drop of an older disk-only handle (finding F12)
         shed   |-> {},                         \* keys whose latest disk write was shed (flush buffer full): outside C01 / C15
         touched |-> Keys,                      \* keys operated on since the last reopen (C15 looks at the others)
@@ -119,7 +124,11 @@ ApplyBatch(T, b) ==
          IF x[1] = "e"
          THEN LET h == Hash[x[2]]
                   ent == [h |-> h, k |-> x[2], v |-> x[3], seq |-> x[4]] IN
-              ApplyBatch([T EXCEPT !.disk = @ \cup {ent}, !.wr = Append(@, x[3]),
+              ApplyBatch([T EXCEPT !.disk = @ \cup {ent} \cup T.ghost, !.wsince = @ \cup {ent}, !.wr = Append(@, x[3]),
+                                   \* what the code does (finding F13, open): clear() zeroes the first page of every
+                                   \* block but the flusher keeps appending to its current blob, whose index page -
+                                   \* rewritten with every batch - still lists the entries written before the clear
+                                   !.revived = @ \cup {g.k : g \in T.ghost}, !.ghost = {},
                                    !.index = IndexPut(@, h, [kind |-> "addr", k |-> x[2], v |-> x[3], seq |-> x[4]])],
                          Tail(b))
          ELSE ApplyBatch([T EXCEPT !.tlog = IF TombLog THEN @ \cup {[h |-> x[2], seq |-> x[3]]} ELSE @], Tail(b))
@@ -131,6 +140,7 @@ Complete(T, b) ==
     IF b = <<>> THEN T
     ELSE LET x == Head(b) IN
          IF x[1] = "e" THEN Complete([T EXCEPT !.keeper[x[2]] = IF @ = x[3] THEN 0 ELSE @], Tail(b))
+         ELSE IF x[2] \notin HashVals THEN Complete(T, Tail(b))      \* the marker tombstone of clear (hash 0)
          ELSE Complete([T EXCEPT !.index[x[2]] = IF x[3] >= @.seq /\ @.kind # "none" THEN NoIdx ELSE @], Tail(b))
 
 BatchDone(T) == [Complete(ApplyBatch(T, T.io), T.io) EXCEPT !.io = <<>>, !.inio = FALSE]
@@ -189,7 +199,7 @@ InsertGen(k, nt, hold) ==
            loc == KeyLoc[k]
            v == T.nv + 1
            T1 == [T EXCEPT !.nv = v, !.truth[k] = v, !.loc[k] = loc, !.vkey = Append(@, k),
-                           !.touched = @ \cup {k}, !.late = @ \ {k}]
+                           !.touched = @ \cup {k}, !.late = @ \ {k}, !.revived = @ \ {k}]
            T2 == IF loc = "ondisk"
                  THEN \* phantom: the old memory copy leaves (replace), the new record is never resident.
                       \* woi enqueues it at insert.  woe: it goes down the pipe when its last handle is
@@ -272,6 +282,18 @@ Fetch(k) ==
             /\ S' = Pump(T3)
             /\ out' = [op |-> [a |-> "fetch", k |-> k], res |-> v]
 
+\* HybridCache::clear: memory.clear(), then Store::destroy: a tombstone with a fresh sequence is submitted,
+\* everything queued is flushed (wait), then the index is cleared and every block is cleaned
+Clear ==
+    /\ S.active /\ ~S.hold /\ ~S.gate
+    /\ LET T == Begin(S)
+           T1 == [T EXCEPT !.mem = <<>>, !.truth = [k \in Keys |-> 0], !.loc = [k \in Keys |-> "none"],
+                           !.touched = Keys, !.seq = @ + 1, !.buf = Append(@, <<"t", 0, T.seq>>)]
+           T2 == Pump(T1) IN
+       S' = [T2 EXCEPT !.index = [h \in HashVals |-> NoIdx], !.disk = {}, !.shed = {}, !.late = {},
+                       !.ghost = T2.wsince, !.revived = {}]
+    /\ out' = [op |-> [a |-> "clear"], res |-> 0]
+
 EvictAll ==
     /\ S.active
     /\ LET T == Begin(S)
@@ -307,6 +329,14 @@ Close ==
        S' = [Pump(T1) EXCEPT !.active = FALSE]
     /\ out' = [op |-> [a |-> "close"], res |-> 0]
 
+\* close() while the device holds the writes of the batch in flight: the call cannot return before they complete
+\* (flush on close first waits for the flushers; without it Store::close waits for them).  The driver gives
+\* up on the call; nothing further is driven in such a run.  Memory has been handed to the flush by then.
+CloseGated ==
+    /\ S.active /\ S.gate /\ ~S.hold /\ S.inio /\ S.heldph = <<>>
+    /\ S' = [Begin(S) EXCEPT !.stuck = TRUE, !.mem = IF FlushOnClose THEN <<>> ELSE @]
+    /\ out' = [op |-> [a |-> "close"], res |-> 0 - 2]
+
 \* highest sequence per hash over durable entries and logged tombstones (ties: the tombstone)
 Recovered(T) ==
     [h \in HashVals |->
@@ -325,7 +355,7 @@ Reopen ==
     /\ ~S.active
     /\ S' = [S0 EXCEPT !.disk = S.disk, !.tlog = S.tlog, !.index = Recovered(S), !.seq = MaxSeq(S) + 1,
                       !.truth = S.truth, !.loc = S.loc, !.nv = S.nv, !.vkey = S.vkey, !.touched = {},
-                      !.shed = S.shed, !.late = S.late]
+                      !.shed = S.shed, !.late = S.late, !.revived = S.revived]
     /\ out' = [op |-> [a |-> "reopen"], res |-> 0]
 
 -------------------------------------------------------------------------------
@@ -335,8 +365,8 @@ Reopen ==
 WouldRead(k) == GetStep(S, k).res
 \* keys outside C01's claim: advice alternating between in-memory-only and disk (handled by the driver:
 \* a key keeps its class); keys whose latest write was shed by a full flush buffer (S.shed)
-NoStaleNoForeign == \A k \in Keys \ (S.shed \cup S.late) : WouldRead(k) \in {0, S.truth[k]}
-LastLookupOK == (out.op.a \in {"get", "fetch"} /\ out.op.k \notin S.shed \cup S.late) => out.res \in {0, S.truth[out.op.k]}
+NoStaleNoForeign == \A k \in Keys \ (S.shed \cup S.late \cup S.revived) : WouldRead(k) \in {0, S.truth[k]}
+LastLookupOK == (out.op.a \in {"get", "fetch"} /\ out.op.k \notin S.shed \cup S.late \cup S.revived) => out.res \in {0, S.truth[out.op.k]}
 
 \* C12
 InMemNeverOnDevice == \A e \in S.disk : \A k \in Keys : (e.k = k /\ S.truth[k] = e.v) => S.loc[k] # "inmem"
@@ -351,7 +381,7 @@ HitCausesNoWrite == (out.op.a = "get" /\ out.res # 0 /\ KeyLoc[out.op.k] # "ondi
 Collides(k) == \E k2 \in Keys \ {k} : Hash[k2] = Hash[k]
 ClosePersists ==
     (out.op.a = "reopen" /\ FlushOnClose) =>
-        \A k \in Keys \ (S.shed \cup S.late) : (S.truth[k] # 0 /\ S.loc[k] # "inmem" /\ ~Collides(k)) => WouldRead(k) = S.truth[k]
+        \A k \in Keys \ (S.shed \cup S.late \cup S.revived) : (S.truth[k] # 0 /\ S.loc[k] # "inmem" /\ ~Collides(k)) => WouldRead(k) = S.truth[k]
 
 TypeOK == /\ Len(S.mem) <= MemCap
           /\ S.inio = (S.io # <<>>)
@@ -359,6 +389,7 @@ TypeOK == /\ Len(S.mem) <= MemCap
 \* the disk tier's own lookup answers with a version of the key asked for
 StoreLoadOwnKey == out.op.a = "sload" => (out.res = 0 \/ S.vkey[out.res] = out.op.k)
 
-Inv == TypeOK /\ NoStaleNoForeign /\ LastLookupOK /\ StoreLoadOwnKey /\ OnDiskNotRetained /\ HitCausesNoWrite
-       /\ InMemNeverOnDevice /\ ClosePersists
+\* (nothing is claimed about the state left behind by a close() that could not return: the run ends there)
+Inv == S.stuck \/ (TypeOK /\ NoStaleNoForeign /\ LastLookupOK /\ StoreLoadOwnKey /\ OnDiskNotRetained /\ HitCausesNoWrite
+       /\ InMemNeverOnDevice /\ ClosePersists)
 ===============================================================================
